@@ -1,20 +1,21 @@
 import EdpVerif.Lemmas.Handshake
 /-!
-# C04 — handshake: connected only after cookie proof; flags are the intersection; layouts
+# C04 — handshake: connected only after cookie proof, in protocol order; failure is final; flags are the intersection; layouts
 
-All statements are about `Impl.Handshake.step` / `run` (the model of state_machine.rs + handshake.rs, tied to the
-code by the correspondence run) and quantify over EVERY sequence of API calls with arbitrary arguments, every
-configuration (cookie, name, flags, creation) and every digest function `dg` (uninterpreted: nothing cryptographic
-is claimed; in the driver `dg` is MD5 (cookie ++ decimal challenge)).
+All statements are about `Impl.Handshake.step` / `run` (the model of state_machine.rs + handshake.rs + flags.rs, tied to
+the code by the correspondence run) and quantify over EVERY sequence of API calls with arbitrary byte arguments, every
+configuration (cookie, name, flags, creation) and every digest function `dg` (uninterpreted: nothing cryptographic is
+claimed; in the driver `dg` is MD5 (cookie ++ decimal challenge)).
 
-`hist` (Spec.Handshake) is a function of the call history alone: the challenge this side generated for the handshake
-in progress (`our`), the peer's challenge (`their`) and the flag intersection (`neg`), reset by `disconnect`.
+`Spec.Handshake.connStep` is the protocol automaton of the connecting side, written from the protocol; the model refines
+it (`C04_refines_protocol`), and the shape of every call sequence that ends `connected` is spelled out without reference
+to either (`C04_connected_only_in_order`, `C04_in_order_connects`).
 -/
 namespace Edp.Props.C04
 open Edp
 open Edp.Impl.Handshake
 open Edp.Lemmas.Handshake
-open Edp.Spec.Handshake (Op Hist histStep histFrom hist parseAck parseChallenge parseStatus parseReply)
+open Edp.Spec.Handshake (Op Phase Conn Side Resp connStep connRun connResps parseAck parseChallenge parseStatus parseReply)
 
 /-- a configuration and digest used by the non-vacuity examples -/
 def cfg0 : Cfg := { name := [110, 64, 104], cookie := [99, 107], flags := 0xd07df7fbd, creation := 7 }
@@ -22,125 +23,274 @@ def dg0 : Bytes → Nat → Bytes := fun ck c => List.replicate 15 0 ++ [UInt8.o
 /-- a well-formed challenge message: flags 0xff, challenge 9, creation 3, name "p" -/
 def chal0 : Bytes := [78, 0, 0, 0, 0, 0, 0, 0, 255, 0, 0, 0, 9, 0, 0, 0, 3, 0, 1, 112]
 def ack0 (c : Nat) : Bytes := 97 :: dg0 cfg0.cookie c
+def statusOk : Bytes := [115, 111, 107]
+def statusNok : Bytes := [115, 110, 111, 107]
+/-- the calls of `Connection::connect` with a conforming peer -/
+def good0 : List Op := connectScript statusOk chal0 5 (ack0 5)
 
-/-! ## connected only after the cookie proof -/
+/-! ## connected only after the cookie proof, made in protocol order, in this handshake -/
 
-/-- THE central statement. Whatever calls were made, in whatever order and with whatever arguments: if the machine
-is `connected`, then the call sequence has the shape `pre ++ [handleChallengeAck a] ++ post` where `a` parses as
-an ack whose digest is `dg cookie c`, `c` being the challenge this side generated in the handshake in progress at
-that point (last well-formed challenge message since the last `disconnect`), and nothing in `post` could have left
-`connected` (so this ack is the last transition into `connected`). -/
+/-- THE central statement. Whatever calls were made, in whatever order and with whatever arguments: if the machine is
+`connected`, then the call sequence since the last `disconnect` (`pre` is empty or ends with one; nothing after it is a
+`disconnect`) contains `begin_connect`, then the first `prepare_send_name` after it (the name has at most 255 bytes), then
+the first `handle_status` after that (an accepting status), then the first `handle_challenge` after that (a well-formed
+challenge; `c` is the challenge this side generated in THAT call), then the first `prepare_challenge_reply` after that,
+then the first `handle_challenge_ack` after that, whose digest is `dg cookie c` — and the negotiated capability set is
+the intersection of that challenge's flags with this side's. (`prepare_complement` may occur in the gaps.) -/
+theorem C04_connected_only_in_order (cfg : Cfg) (dg : Bytes → Nat → Bytes) (ops : List Op)
+    (hc : (run cfg dg ops).state = .connected) :
+    ∃ pre g0 g1 g2 sb g3 cb c g4 g5 ab post,
+      ops = pre ++ g0 ++ Op.beginConnect :: g1 ++ Op.prepareSendName :: g2 ++ Op.handleStatus sb :: g3 ++
+        Op.handleChallenge cb c :: g4 ++ Op.prepareChallengeReply :: g5 ++ Op.handleChallengeAck ab :: post ∧
+      (pre = [] ∨ ∃ q, pre = q ++ [Op.disconnect]) ∧
+      (∀ o ∈ g0, o.isBegin = false ∧ o.isDisconnect = false) ∧
+      (∀ o ∈ g1, (o.isSendName || o.isDisconnect) = false) ∧
+      (∀ o ∈ g2, (o.isStatus || o.isDisconnect) = false) ∧
+      (∀ o ∈ g3, (o.isChallenge || o.isDisconnect) = false) ∧
+      (∀ o ∈ g4, (o.isReply || o.isDisconnect) = false) ∧
+      (∀ o ∈ g5, (o.isAck || o.isDisconnect) = false) ∧
+      (∀ o ∈ post, o.isDisconnect = false) ∧
+      cfg.name.length ≤ 255 ∧
+      (∃ st, parseStatus sb = some st ∧ st.accepts = true) ∧
+      (∃ m, parseChallenge cb = some m ∧ (run cfg dg ops).neg = some (m.flags &&& cfg.flags)) ∧
+      parseAck ab = some (dg cfg.cookie c) := by
+  have h1 : abs (run cfg dg ops) = connRun (sideOf cfg) dg Conn.empty ops := by
+    rw [run, runFrom_refines, abs_init]
+  have he : (connRun (sideOf cfg) dg Conn.empty ops).phase = .established := by
+    rw [← h1]; exact (connected_iff _).mp hc
+  have hneg : (run cfg dg ops).neg = (connRun (sideOf cfg) dg Conn.empty ops).neg := by rw [← h1]; rfl
+  obtain ⟨pre, g0, g1, g2, sb, g3, cb, c, g4, g5, ab, post, e, h⟩ := established_decomp (sideOf cfg) dg ops he
+  rw [← hneg] at h
+  exact ⟨pre, g0, g1, g2, sb, g3, cb, c, g4, g5, ab, post, e, h⟩
+
+example : (run cfg0 dg0 good0).state = .connected := by decide
+
+/-- and conversely: every call sequence of that shape ends `connected` (so the shape is exactly the set of successful
+histories — neither a conforming peer nor out-of-order calls that were refused in between are locked out) -/
+theorem C04_in_order_connects (cfg : Cfg) (dg : Bytes → Nat → Bytes) (pre g0 g1 g2 g3 : List Op) (sb cb : Bytes) (c : Nat)
+    (g4 g5 : List Op) (ab : Bytes) (post : List Op)
+    (hpre : pre = [] ∨ ∃ q, pre = q ++ [Op.disconnect])
+    (hg0 : ∀ o ∈ g0, o.isBegin = false ∧ o.isDisconnect = false)
+    (hg1 : ∀ o ∈ g1, (o.isSendName || o.isDisconnect) = false)
+    (hg2 : ∀ o ∈ g2, (o.isStatus || o.isDisconnect) = false)
+    (hg3 : ∀ o ∈ g3, (o.isChallenge || o.isDisconnect) = false)
+    (hg4 : ∀ o ∈ g4, (o.isReply || o.isDisconnect) = false)
+    (hg5 : ∀ o ∈ g5, (o.isAck || o.isDisconnect) = false)
+    (hpost : ∀ o ∈ post, o.isDisconnect = false)
+    (hname : cfg.name.length ≤ 255)
+    (hst : ∃ st, parseStatus sb = some st ∧ st.accepts = true)
+    (hm : ∃ m, parseChallenge cb = some m)
+    (hack : parseAck ab = some (dg cfg.cookie c)) :
+    (run cfg dg (pre ++ g0 ++ Op.beginConnect :: g1 ++ Op.prepareSendName :: g2 ++ Op.handleStatus sb :: g3 ++
+      Op.handleChallenge cb c :: g4 ++ Op.prepareChallengeReply :: g5 ++ Op.handleChallengeAck ab :: post)).state
+      = .connected := by
+  rw [connected_iff, run, runFrom_refines, abs_init]
+  exact established_of_shape (sideOf cfg) dg pre g0 g1 g2 g3 sb cb c g4 g5 ab post hpre hg0 hg1 hg2 hg3 hg4 hg5 hpost
+    hname hst hm hack
+
+/-- a short form of the central statement, as in the design: there are indices `i < j`, `ops[i]` a well-formed
+challenge message for which this side generated `c`, `ops[j]` the ack with `dg cookie c`, and no `disconnect` after `i` -/
 theorem C04_connected_only_after_proof (cfg : Cfg) (dg : Bytes → Nat → Bytes) (ops : List Op)
     (hc : (run cfg dg ops).state = .connected) :
-    ∃ pre a post c, ops = pre ++ Op.handleChallengeAck a :: post ∧
-      (hist cfg.flags pre).our = some c ∧ parseAck a = some (dg cfg.cookie c) ∧
-      ∀ op ∈ post, op.keepsConnected = true := by
-  rcases connected_from cfg dg ops State.init Hist.empty agrees_init hc with ⟨h, _⟩ | h
-  · simp [State.init] at h
-  · exact h
+    ∃ p1 cb c mid ab post, ops = p1 ++ Op.handleChallenge cb c :: mid ++ Op.handleChallengeAck ab :: post ∧
+      (parseChallenge cb).isSome = true ∧ parseAck ab = some (dg cfg.cookie c) ∧
+      (∀ o ∈ mid, o.isDisconnect = false) ∧ (∀ o ∈ post, o.isDisconnect = false) := by
+  obtain ⟨pre, g0, g1, g2, sb, g3, cb, c, g4, g5, ab, post, e, _, _, _, _, _, hg4, hg5, hpost, _, _, ⟨m, hm, _⟩, hack⟩ :=
+    C04_connected_only_in_order cfg dg ops hc
+  refine ⟨pre ++ g0 ++ Op.beginConnect :: g1 ++ Op.prepareSendName :: g2 ++ Op.handleStatus sb :: g3, cb, c,
+    g4 ++ Op.prepareChallengeReply :: g5, ab, post, by simp [e], by simp [hm], hack, ?_, hpost⟩
+  intro o ho
+  rcases List.mem_append.mp ho with h | h
+  · have := hg4 o h; simp only [Bool.or_eq_false_iff] at this; exact this.2
+  · rcases List.mem_cons.mp h with rfl | h
+    · rfl
+    · have := hg5 o h; simp only [Bool.or_eq_false_iff] at this; exact this.2
 
-example : (run cfg0 dg0 [.handleChallenge chal0 5, .handleChallengeAck (ack0 5)]).state = .connected := by decide
+/-- `disconnect` starts from scratch: whatever happened before it is forgotten — in particular a proof (ack) or a
+challenge of an earlier handshake is of no use afterwards, a whole new handshake is needed (apply
+`C04_connected_only_in_order` to `post`) -/
+theorem C04_disconnect_resets (cfg : Cfg) (dg : Bytes → Nat → Bytes) (pre post : List Op) :
+    run cfg dg (pre ++ Op.disconnect :: post) = run cfg dg post := by
+  simp [run, runFrom_append, runFrom_cons, step, State.init]
 
-/-- `hist … .our = some c` unfolded: `c` is the challenge generated by a `handleChallenge` call with a well-formed
-message, and between that call and now there was no `disconnect` and no other well-formed challenge message
-("the challenge this side issued in that same handshake"). The same unfolding gives the peer's challenge and the
-flag intersection. -/
-theorem C04_issued_challenge_iff (f : Nat) (pre : List Op) (c : Nat) :
-    (hist f pre).our = some c ↔
-    ∃ p1 b m p2, pre = p1 ++ Op.handleChallenge b c :: p2 ∧ parseChallenge b = some m ∧
-      (∀ op ∈ p2, op.keepsChallenge = true) ∧
-      hist f pre = ⟨some c, some m.challenge, some (m.flags &&& f)⟩ := by
+example : (run cfg0 dg0 (good0 ++ [.disconnect, .handleChallengeAck (ack0 5)])).state = .disconnected := by decide
+
+/-! ## the model refines the protocol automaton -/
+
+/-- over every call sequence: the machine's state stands for the phase the protocol automaton of the connecting side is
+in (`abs`), its negotiated flags are the automaton's, and every call answers what the automaton answers — success,
+the same bytes, or an error (never a panic) -/
+theorem C04_refines_protocol (cfg : Cfg) (dg : Bytes → Nat → Bytes) (ops : List Op) :
+    abs (run cfg dg ops) = connRun (sideOf cfg) dg Conn.empty ops ∧
+    (outsFrom cfg dg State.init ops).map respOf = (connResps (sideOf cfg) dg Conn.empty ops).map some := by
   constructor
-  · intro h
-    rcases histFrom_explicit f pre Hist.empty c h with ⟨h1, _, _⟩ | h
-    · simp [Hist.empty] at h1
-    · exact h
-  · rintro ⟨p1, b, m, p2, _, _, _, hh⟩
-    rw [hh]
+  · rw [run, runFrom_refines, abs_init]
+  · rw [outs_refine, abs_init]
 
-example : (hist 15 [.disconnect, .handleChallenge chal0 5, .handleChallengeAck []]).our = some 5 := by decide
+example : connRun (sideOf cfg0) dg0 Conn.empty good0 = ⟨.established, some (255 &&& 0xd07df7fbd)⟩ := by decide
 
-/-- the explicit form of the central statement, as in the design: indices `i < j`, `ops[i]` a well-formed challenge
-message for which this side generated `c`, `ops[j]` the ack with `dg cookie c`, no `disconnect` (and no newer
-challenge) between them, nothing after `j` that leaves `connected`. -/
-theorem C04_connected_explicit (cfg : Cfg) (dg : Bytes → Nat → Bytes) (ops : List Op)
-    (hc : (run cfg dg ops).state = .connected) :
-    ∃ p1 b c mid a post, ops = p1 ++ Op.handleChallenge b c :: mid ++ Op.handleChallengeAck a :: post ∧
-      (parseChallenge b).isSome = true ∧
-      (∀ op ∈ mid, op ≠ Op.disconnect ∧ op.keepsChallenge = true) ∧
-      parseAck a = some (dg cfg.cookie c) ∧
-      ∀ op ∈ post, op.keepsConnected = true := by
-  obtain ⟨pre, a, post, c, e, hh, hp, hk⟩ := C04_connected_only_after_proof cfg dg ops hc
-  obtain ⟨p1, b, m, p2, e2, hm, hq, _⟩ := (C04_issued_challenge_iff cfg.flags pre c).mp hh
-  refine ⟨p1, b, c, p2, a, post, ?_, by simp [hm], ?_, hp, hk⟩
-  · rw [e, e2]
-  · intro op ho
-    refine ⟨?_, hq op ho⟩
-    intro hd
-    have := hq op ho
-    rw [hd] at this
-    simp [Spec.Handshake.Op.keepsChallenge] at this
+/-! ## failure is final; bad input never connects; out-of-order calls are refused -/
 
-/-- a stale proof does not work: after `disconnect` no ack of any content connects until a new challenge came -/
-theorem C04_no_connect_without_new_challenge (cfg : Cfg) (dg : Bytes → Nat → Bytes) (pre post : List Op)
-    (hq : ∀ op ∈ post, ∀ b c, op = Op.handleChallenge b c → parseChallenge b = none) :
-    (run cfg dg (pre ++ Op.disconnect :: post)).state ≠ .connected := by
-  intro hc
-  obtain ⟨p1, b, c, mid, a, post', e, hb, hmid, _, hpost⟩ := C04_connected_explicit cfg dg _ hc
-  -- the challenge message lies after the disconnect (nothing between it and the ack is a disconnect) — so in `post`
-  have key : ∀ (l1 l2 : List Op), l1 ++ Op.disconnect :: post = l2 ++ Op.handleChallenge b c :: mid ++ Op.handleChallengeAck a :: post' →
-      False := by
-    intro l1
-    induction l1 with
-    | nil =>
-      intro l2 h
-      cases l2 with
-      | nil => simp at h
-      | cons x l2 =>
-        simp only [List.nil_append, List.cons_append, List.cons.injEq] at h
-        obtain ⟨_, h⟩ := h
-        have hm : Op.handleChallenge b c ∈ post := by rw [h]; simp
-        have := hq _ hm b c rfl
-        simp [this] at hb
-    | cons y l1 ih =>
-      intro l2 h
-      cases l2 with
-      | nil =>
-        simp only [List.nil_append, List.cons_append, List.cons.injEq] at h
-        obtain ⟨_, h⟩ := h
-        have hm : Op.disconnect ∈ mid ++ Op.handleChallengeAck a :: post' := by rw [← h]; simp
-        rcases List.mem_append.mp hm with hm | hm
-        · exact (hmid _ hm).1 rfl
-        · -- a disconnect after the ack would have left `connected`
-          rcases List.mem_cons.mp hm with hm | hm
-          · cases hm
-          · have := hpost _ hm
-            simp [Spec.Handshake.Op.keepsConnected] at this
-      | cons x l2 =>
-        simp only [List.cons_append, List.cons.injEq] at h
-        exact ih l2 (by simpa using h.2)
-  exact key pre p1 e
+/-- once `Failed` (or left in `SendingName` by a refused name): every call but `disconnect` is an
+`InvalidStateTransition` error and nothing changes — in particular `Connected` is out of reach until `disconnect` -/
+theorem C04_failed_is_final (cfg : Cfg) (dg : Bytes → Nat → Bytes) (s : State)
+    (hs : s.state = .failed ∨ s.state = .sendingName) (ops : List Op) (hnd : ∀ o ∈ ops, o ≠ Op.disconnect) :
+    runFrom cfg dg s ops = s ∧ ∀ o ∈ outsFrom cfg dg s ops, o = Out.err .invalidTransition := by
+  have stuck : ∀ op, op ≠ Op.disconnect → step cfg dg s op = (s, .err .invalidTransition) := by
+    intro op hd
+    cases op with
+    | disconnect => exact absurd rfl hd
+    | beginConnect => exact step_out_of_order cfg dg s _ _ rfl (by rcases hs with h | h <;> simp [h])
+    | prepareSendName => exact step_out_of_order cfg dg s _ _ rfl (by rcases hs with h | h <;> simp [h])
+    | handleStatus b => exact step_out_of_order cfg dg s _ _ rfl (by rcases hs with h | h <;> simp [h])
+    | prepareComplement => exact step_out_of_order cfg dg s _ _ rfl (by rcases hs with h | h <;> simp [h])
+    | handleChallenge b c => exact step_out_of_order cfg dg s _ _ rfl (by rcases hs with h | h <;> simp [h])
+    | prepareChallengeReply => exact step_out_of_order cfg dg s _ _ rfl (by rcases hs with h | h <;> simp [h])
+    | handleChallengeAck b => exact step_out_of_order cfg dg s _ _ rfl (by rcases hs with h | h <;> simp [h])
+  induction ops with
+  | nil => exact ⟨rfl, by simp [outsFrom]⟩
+  | cons op rest ih =>
+    have h1 := stuck op (hnd op (by simp))
+    obtain ⟨ih1, ih2⟩ := ih (fun o ho => hnd o (by simp [ho]))
+    constructor
+    · rw [runFrom_cons, h1]; exact ih1
+    · intro o ho
+      simp only [outsFrom, h1, List.mem_cons] at ho
+      rcases ho with rfl | ho
+      · rfl
+      · exact ih2 o ho
 
-example : (run cfg0 dg0 [.handleChallenge chal0 5, .handleChallengeAck (ack0 5), .disconnect,
-    .handleChallengeAck (ack0 5)]).state = .disconnected := by decide
+example : (runFrom cfg0 dg0 ⟨.failed, some 5, some 9, none⟩ good0).state = .failed := by decide
+
+/-- what a misbehaving peer (or an over-long local name) leads to: a call that fails with `ConnectionRefused`,
+`InvalidHandshakeMessage` or `AuthenticationFailed` leaves the machine `Failed`; `NodeNameTooLong` leaves it in
+`SendingName`; both are dead ends (`C04_failed_is_final`) -/
+theorem C04_peer_error_latches (cfg : Cfg) (dg : Bytes → Nat → Bytes) (s : State) (op : Op) (e : Err)
+    (h : (step cfg dg s op).2 = .err e) (he : e = .refused ∨ e = .malformed ∨ e = .auth ∨ e = .nameTooLong) :
+    (e = .nameTooLong ∧ (step cfg dg s op).1.state = .sendingName) ∨
+    (e ≠ .nameTooLong ∧ (step cfg dg s op).1.state = .failed) := by
+  rcases step_err_state cfg dg s op e h with ⟨h1, _⟩ | ⟨h1, h2⟩ | ⟨h1, h2⟩
+  · rcases h1 with rfl | rfl <;> simp at he
+  · exact .inl ⟨h1, h2⟩
+  · refine .inr ⟨?_, h2⟩
+    rcases h1 with rfl | rfl | rfl <;> simp
+
+/-- refusal status, malformed / truncated / ill-typed / out-of-order MESSAGE, wrong digest: once any call of a handshake
+has returned such an error, no later call reaches `Connected` until `disconnect` -/
+theorem C04_never_connected_after_error (cfg : Cfg) (dg : Bytes → Nat → Bytes) (pre : List Op) (op : Op) (post : List Op)
+    (e : Err) (h : (step cfg dg (run cfg dg pre) op).2 = .err e)
+    (he : e = .refused ∨ e = .malformed ∨ e = .auth ∨ e = .nameTooLong) (hnd : ∀ o ∈ post, o ≠ Op.disconnect) :
+    (run cfg dg (pre ++ op :: post)).state ≠ .connected := by
+  have hdead : (step cfg dg (run cfg dg pre) op).1.state = .failed ∨ (step cfg dg (run cfg dg pre) op).1.state = .sendingName := by
+    rcases C04_peer_error_latches cfg dg _ op e h he with ⟨_, h2⟩ | ⟨_, h2⟩
+    · exact .inr h2
+    · exact .inl h2
+  have hfin := (C04_failed_is_final cfg dg _ hdead post hnd).1
+  have e1 : run cfg dg (pre ++ op :: post) = runFrom cfg dg (step cfg dg (run cfg dg pre) op).1 post := by
+    simp [run, runFrom_append, runFrom_cons]
+  rw [e1, hfin]
+  rcases hdead with h | h <;> simp [h]
+
+example : (step cfg0 dg0 (run cfg0 dg0 [.beginConnect, .prepareSendName]) (.handleStatus statusNok)).2 = .err .refused := by
+  decide
+example : (run cfg0 dg0 ([.beginConnect, .prepareSendName, .handleStatus statusNok] ++ good0.drop 2)).state = .failed := by
+  decide
+
+/-- a call made in another state than the one the protocol puts it in (`needs`: begin_connect — Disconnected,
+prepare_send_name — Connecting, handle_status — AwaitingStatus, prepare_complement and handle_challenge —
+AwaitingChallenge, prepare_challenge_reply — SendingChallengeReply, handle_challenge_ack — AwaitingChallengeAck) returns
+`InvalidStateTransition` and changes nothing, whatever its argument -/
+theorem C04_out_of_order_rejected (cfg : Cfg) (dg : Bytes → Nat → Bytes) (s : State) (op : Op) (st : ConnState)
+    (hn : needs op = some st) (hs : s.state ≠ st) : step cfg dg s op = (s, .err .invalidTransition) :=
+  step_out_of_order cfg dg s op st hn hs
+
+example : (run cfg0 dg0 [.handleChallenge chal0 5, .prepareChallengeReply, .handleChallengeAck (ack0 5)]).state
+    = .disconnected := by decide
+
+/-- the only call that takes the machine INTO `connected` is an ack, made while the ack is awaited, carrying
+`dg cookie (the challenge this side issued)`, and it returns success (so no error result ever enters `connected`) -/
+theorem C04_bad_input_never_connects (cfg : Cfg) (dg : Bytes → Nat → Bytes) (s : State) (op : Op)
+    (hs : s.state ≠ .connected) (hc : (step cfg dg s op).1.state = .connected) :
+    (step cfg dg s op).2 = .unit ∧ s.state = .awaitingChallengeAck ∧
+    ∃ a c, op = .handleChallengeAck a ∧ s.our = some c ∧ parseAck a = some (dg cfg.cookie c) := by
+  obtain ⟨r1, r2⟩ := step_refines cfg dg s op
+  have hn : ¬ (abs s).phase = .established := fun h => hs ((connected_iff s).mpr h)
+  have hp : (connStep (sideOf cfg) dg (abs s) op).1.phase = .established := by
+    rw [← r1]; exact (connected_iff _).mp hc
+  obtain ⟨a, c, rfl, hr, hack⟩ := enter_established (sideOf cfg) dg _ _ hn hp
+  obtain ⟨hst, hour⟩ := abs_replied s c hr
+  refine ⟨?_, hst, a, c, rfl, hour, hack⟩
+  have : (connStep (sideOf cfg) dg (abs s) (.handleChallengeAck a)).2 = .ok := by
+    have hr' : (abs s) = ⟨.replied c, (abs s).neg⟩ := by rw [← hr]
+    rw [hr']
+    simp [connStep, hack]
+  rw [this] at r2
+  cases ho : (step cfg dg s (.handleChallengeAck a)).2 <;> simp [ho, respOf] at r2
+  rfl
+
+example : (step cfg0 dg0 (run cfg0 dg0 (good0.take 6)) (.handleChallengeAck (ack0 5))).1.state = .connected := by decide
+
+/-- while the ack is awaited: a malformed / truncated / wrong-tag / wrong-digest ack is an error and the machine is `Failed` -/
+theorem C04_bad_ack_rejected (cfg : Cfg) (dg : Bytes → Nat → Bytes) (s : State) (a : Bytes) (c : Nat)
+    (hs : s.state = .awaitingChallengeAck) (ho : s.our = some c) (hbad : parseAck a ≠ some (dg cfg.cookie c)) :
+    (step cfg dg s (.handleChallengeAck a)).1 = { s with state := .failed } ∧
+    (step cfg dg s (.handleChallengeAck a)).2.isErr = true := by
+  simp only [step, decodeAck_eq, hs]
+  cases hp : parseAck a with
+  | none => simp [Out.isErr]
+  | some d =>
+    have : d ≠ dg cfg.cookie c := by
+      intro e
+      exact hbad (by rw [hp, e])
+    simp [ho, this, Out.isErr]
+
+example : (step cfg0 dg0 (run cfg0 dg0 (good0.take 6)) (.handleChallengeAck (ack0 9))) =
+    (⟨.failed, some 5, some 9, some (255 &&& 0xd07df7fbd)⟩, .err .auth) := by decide
+
+/-- while the status is awaited: ok / ok_simultaneous — success and the challenge is awaited next; a refusal
+(nok, not_allowed, alive), an unknown or malformed status — an error and the machine is `Failed` -/
+theorem C04_status (cfg : Cfg) (dg : Bytes → Nat → Bytes) (s : State) (b : Bytes) (hs : s.state = .awaitingStatus) :
+    ((∃ st, parseStatus b = some st ∧ st.accepts = true) →
+      step cfg dg s (.handleStatus b) = ({ s with state := .awaitingChallenge }, .unit)) ∧
+    ((¬ ∃ st, parseStatus b = some st ∧ st.accepts = true) →
+      (step cfg dg s (.handleStatus b)).1 = { s with state := .failed } ∧
+      (step cfg dg s (.handleStatus b)).2.isErr = true) := by
+  simp only [step, decodeStatus_eq, hs]
+  cases hp : parseStatus b with
+  | none => simp [Out.isErr]
+  | some st =>
+    have := convStatus_isOk st
+    cases hacc : st.accepts <;> simp [hacc, this, Out.isErr]
+
+example : (step cfg0 dg0 (run cfg0 dg0 (good0.take 2)) (.handleStatus statusNok)).1.state = .failed := by decide
 
 /-! ## the reply carries the digest of the cookie and the peer's challenge -/
 
-/-- at any point of any call sequence: a reply that is emitted is exactly `'r' ourChallenge digest(cookie, theirChallenge)`
-with both challenges those of the handshake in progress -/
+/-- at any point of any call sequence: a reply that is emitted is exactly `'r' ourChallenge digest(cookie, theirChallenge)`,
+where the two challenges are those of the challenge message handled in this handshake: `ops = pre ++ handleChallenge cb c :: g`
+with `cb` well-formed carrying the peer's challenge `t`, and neither a reply nor a `disconnect` since -/
 theorem C04_reply_digest (cfg : Cfg) (dg : Bytes → Nat → Bytes) (ops : List Op) (bs : Bytes)
     (h : (step cfg dg (run cfg dg ops) .prepareChallengeReply).2 = .bytes bs) :
-    ∃ c t, (hist cfg.flags ops).our = some c ∧ (hist cfg.flags ops).their = some t ∧
-      bs = Spec.Handshake.reply c (dg cfg.cookie t) := by
-  obtain ⟨h1, h2, _⟩ := run_agrees cfg dg ops
-  simp only [step] at h
-  split at h
-  · rename_i o t ho ht
-    simp only [Out.bytes.injEq] at h
-    exact ⟨o, t, by rw [← h1, ho], by rw [← h2, ht], by rw [← h]; rfl⟩
-  · simp at h
+    ∃ c t, bs = Spec.Handshake.reply c (dg cfg.cookie t) ∧
+      ∃ pre cb m g, ops = pre ++ Op.handleChallenge cb c :: g ∧ parseChallenge cb = some m ∧ m.challenge = t ∧
+        ∀ o ∈ g, (o.isReply || o.isDisconnect) = false := by
+  obtain ⟨_, r2⟩ := step_refines cfg dg (run cfg dg ops) .prepareChallengeReply
+  have h1 : abs (run cfg dg ops) = connRun (sideOf cfg) dg Conn.empty ops := by
+    rw [run, runFrom_refines, abs_init]
+  rw [h, h1] at r2
+  generalize hq : connRun (sideOf cfg) dg Conn.empty ops = q at r2
+  obtain ⟨ph, ng⟩ := q
+  cases ph <;> simp [respOf, connStep] at r2
+  rename_i c t
+  refine ⟨c, t, by rw [r2]; rfl, ?_⟩
+  have hph : (connRun (sideOf cfg) dg Conn.empty ops).phase = .challenged c t := by rw [hq]
+  rcases last_entry (sideOf cfg) dg (P := fun h => h.phase = .challenged c t) (leaves := fun o => o.isReply || o.isDisconnect)
+      (exit_challenged (sideOf cfg) dg c t) ops Conn.empty hph with ⟨h0, _⟩ | ⟨pre, o, g, e, hn, hp, hg⟩
+  · simp [Conn.empty] at h0
+  · obtain ⟨cb, m, rfl, hm, ht, _⟩ := enter_challenged (sideOf cfg) dg c t _ _ hn hp
+    exact ⟨pre, cb, m, g, e, hm, ht, hg⟩
 
-example : (step cfg0 dg0 (run cfg0 dg0 [.handleChallenge chal0 5]) .prepareChallengeReply).2
+example : (step cfg0 dg0 (run cfg0 dg0 (good0.take 5)) .prepareChallengeReply).2
     = .bytes (Spec.Handshake.reply 5 (dg0 cfg0.cookie 9)) := by decide
 
 /-- and a peer reading that reply gets this side's challenge and that digest back (16-byte digest, 32-bit challenge) -/
@@ -162,26 +312,28 @@ example : parseReply (Spec.Handshake.reply 5 (dg0 cfg0.cookie 9)) = some (5, dg0
 
 /-! ## negotiated flags = intersection -/
 
-/-- one call: a well-formed challenge message sets the negotiated flags to `peer flags AND our flags`, stores the
-peer's challenge and the freshly generated challenge; a malformed one changes none of them -/
-theorem C04_flags (cfg : Cfg) (dg : Bytes → Nat → Bytes) (s : State) (b : Bytes) (c : Nat) :
+/-- one call, made while the challenge is awaited: a well-formed challenge message sets the negotiated flags to
+`peer flags AND our flags`, stores the peer's challenge and the freshly generated one, and the reply is due; a
+malformed one is an error, changes none of them, and the machine is `Failed` -/
+theorem C04_flags (cfg : Cfg) (dg : Bytes → Nat → Bytes) (s : State) (b : Bytes) (c : Nat)
+    (hs : s.state = .awaitingChallenge) :
     match parseChallenge b with
     | some m => step cfg dg s (.handleChallenge b c) =
-        (⟨.awaitingChallenge, some c, some m.challenge, some (m.flags &&& cfg.flags)⟩, .unit)
-    | none => step cfg dg s (.handleChallenge b c) = ({ s with state := .awaitingChallenge }, .err .malformed) := by
-  simp only [step, decodeChallenge_eq]
+        (⟨.sendingChallengeReply, some c, some m.challenge, some (m.flags &&& cfg.flags)⟩, .unit)
+    | none => step cfg dg s (.handleChallenge b c) = ({ s with state := .failed }, .err .malformed) := by
+  simp only [step, decodeChallenge_eq, hs]
   cases parseChallenge b <;> simp [convMsg]
 
-/-- over every call sequence: the negotiated flags (and both challenges) are exactly what the history says — the
-intersection computed from the last well-formed challenge message since the last `disconnect`, else nothing -/
+/-- over every call sequence the negotiated flags are the protocol automaton's: nothing before a well-formed challenge
+was handled in its place, `peer flags AND our flags` of that challenge from then on, nothing again after `disconnect`
+(for the `connected` state see the last clause of `C04_connected_only_in_order`) -/
 theorem C04_flags_run (cfg : Cfg) (dg : Bytes → Nat → Bytes) (ops : List Op) :
-    (run cfg dg ops).neg = (hist cfg.flags ops).neg ∧
-    (run cfg dg ops).our = (hist cfg.flags ops).our ∧
-    (run cfg dg ops).their = (hist cfg.flags ops).their := by
-  obtain ⟨h1, h2, h3⟩ := run_agrees cfg dg ops
-  exact ⟨h3, h1, h2⟩
+    (run cfg dg ops).neg = (connRun (sideOf cfg) dg Conn.empty ops).neg := by
+  have h1 : abs (run cfg dg ops) = connRun (sideOf cfg) dg Conn.empty ops := by
+    rw [run, runFrom_refines, abs_init]
+  rw [← h1]; rfl
 
-example : (run cfg0 dg0 [.handleChallenge chal0 5]).neg = some (255 &&& 0xd07df7fbd) := by decide
+example : (run cfg0 dg0 (good0.take 5)).neg = some (255 &&& 0xd07df7fbd) := by decide
 
 /-! ## layouts -/
 
@@ -193,55 +345,74 @@ theorem C04_layouts (cfg : Cfg) (dg : Bytes → Nat → Bytes) (s : State) (op :
     (op = .prepareComplement ∧ bs = Spec.Handshake.complement cfg.flags cfg.creation) ∨
     (op = .prepareChallengeReply ∧ ∃ c t, s.our = some c ∧ s.their = some t ∧
       bs = Spec.Handshake.reply c (dg cfg.cookie t)) := by
+  obtain ⟨_, r2⟩ := step_refines cfg dg s op
+  rw [h] at r2
+  simp only [respOf, Option.some.injEq] at r2
   cases op with
   | beginConnect => simp only [step] at h; split at h <;> simp at h
   | prepareSendName =>
-    by_cases hn : cfg.name.length > 255
-    · simp [step, encodeSendNameOld, hn] at h
-    · simp only [step, encodeSendNameOld, hn, if_false, Out.bytes.injEq] at h
-      left
-      refine ⟨rfl, by omega, ?_⟩
-      rw [← h]
-      simp only [Spec.Handshake.sendNameOld]
+    left
+    simp only [step] at h
+    split at h
+    · simp at h
+    · by_cases hn : cfg.name.length > 255
+      · simp [encodeSendNameOld, hn] at h
+      · simp only [encodeSendNameOld, hn, if_false, Out.bytes.injEq] at h
+        refine ⟨rfl, by omega, ?_⟩
+        rw [← h]
+        simp [Spec.Handshake.sendNameOld]
   | handleStatus b =>
     simp only [step] at h
     split at h
-    · split at h <;> simp at h
     · simp at h
-    · simp at h
+    · split at h
+      · split at h <;> simp at h
+      · simp at h
+      · simp at h
   | prepareComplement =>
-    simp only [step, Out.bytes.injEq] at h
-    exact .inr (.inl ⟨rfl, by rw [← h]; rfl⟩)
-  | handleChallenge b c => simp only [step] at h; split at h <;> simp at h
+    simp only [step] at h
+    split at h
+    · simp at h
+    · simp only [Out.bytes.injEq] at h
+      exact .inr (.inl ⟨rfl, by rw [← h]; simp [Spec.Handshake.complement]⟩)
+  | handleChallenge b c =>
+    simp only [step] at h
+    split at h
+    · simp at h
+    · split at h <;> simp at h
   | prepareChallengeReply =>
     simp only [step] at h
     split at h
-    · rename_i o t ho ht
-      simp only [Out.bytes.injEq] at h
-      exact .inr (.inr ⟨rfl, o, t, ho, ht, by rw [← h]; rfl⟩)
     · simp at h
+    · split at h
+      · rename_i o t ho ht
+        simp only [Out.bytes.injEq] at h
+        exact .inr (.inr ⟨rfl, o, t, ho, ht, by rw [← h]; simp [encodeReply, Spec.Handshake.reply]⟩)
+      · simp at h
   | handleChallengeAck b =>
     simp only [step] at h
     split at h
+    · simp at h
     · split at h
+      · split at h
+        · simp at h
+        · split at h <;> simp at h
       · simp at h
-      · split at h <;> simp at h
-    · simp at h
-    · simp at h
+      · simp at h
   | disconnect => simp [step] at h
 
-example : (step cfg0 dg0 State.init .prepareSendName).2 = .bytes (Spec.Handshake.sendNameOld cfg0.flags cfg0.name) := by
-  decide
+example : (step cfg0 dg0 (run cfg0 dg0 [.beginConnect]) .prepareSendName).2
+    = .bytes (Spec.Handshake.sendNameOld cfg0.flags cfg0.name) := by decide
 
-/-- a name of at most 255 bytes always yields the send_name message; a longer one always an error -/
-theorem C04_send_name_total (cfg : Cfg) (dg : Bytes → Nat → Bytes) (s : State) :
+/-- when the name is due: a name of at most 255 bytes always yields the send_name message; a longer one always an error -/
+theorem C04_send_name_total (cfg : Cfg) (dg : Bytes → Nat → Bytes) (s : State) (hs : s.state = .connecting) :
     (step cfg dg s .prepareSendName).2 =
       if cfg.name.length ≤ 255 then .bytes (Spec.Handshake.sendNameOld cfg.flags cfg.name) else .err .nameTooLong := by
   by_cases hn : cfg.name.length > 255
   · have : ¬ cfg.name.length ≤ 255 := by omega
-    simp [step, encodeSendNameOld, hn, this]
+    simp [step, hs, encodeSendNameOld, hn, this]
   · have h2 : cfg.name.length ≤ 255 := by omega
-    simp [step, encodeSendNameOld, hn, h2, Spec.Handshake.sendNameOld]
+    simp [step, hs, encodeSendNameOld, hn, h2, Spec.Handshake.sendNameOld]
 
 /-- the message structs' encoders produce the protocol layouts too (new-style send_name, challenge, reply, ack) -/
 theorem C04_codec_layouts (f cr ch : Nat) (name d : Bytes) (hn : name.length ≤ 255) :
@@ -251,12 +422,27 @@ theorem C04_codec_layouts (f cr ch : Nat) (name d : Bytes) (hn : name.length ≤
     encodeReply ch d = Spec.Handshake.reply ch d ∧
     encodeAck d = Spec.Handshake.ack d := by
   have h : ¬ name.length > 255 := by omega
-  refine ⟨?_, ?_, ?_, rfl, rfl⟩
+  refine ⟨?_, ?_, ?_, ?_, ?_⟩
   · simp [encodeSendName, h, Spec.Handshake.sendNameNew]
   · simp [encodeSendNameOld, h, Spec.Handshake.sendNameOld]
   · simp [encodeChallenge, h, Spec.Handshake.challenge]
+  · simp [encodeReply, Spec.Handshake.reply]
+  · simp [encodeAck, Spec.Handshake.ack]
 
 example : encodeAck [1, 2] = Spec.Handshake.ack [1, 2] := (C04_codec_layouts 0 0 0 [] [1, 2] (by decide)).2.2.2.2
+
+/-- `StatusMessage::encode` emits the protocol's layout — 2-byte length of tag plus text, `'s'`, the status as text —
+for all five statuses, and `StatusMessage::decode` (given the message without the length, as the transport delivers
+it) returns the status that was encoded -/
+theorem C04_status_round_trip (st : Status) :
+    encodeStatus st = Spec.Handshake.status st.text ∧
+    decodeStatus ((encodeStatus st).drop 2) = .ok st ∧
+    st.text = (match st with
+      | .ok => Spec.Handshake.txtOk | .okSimultaneous => Spec.Handshake.txtOkSimultaneous | .nok => Spec.Handshake.txtNok
+      | .notAllowed => Spec.Handshake.txtNotAllowed | .alive => Spec.Handshake.txtAlive) := by
+  cases st <;> exact ⟨by decide, rfl, rfl⟩
+
+example : encodeStatus .notAllowed = [0, 12, 115, 110, 111, 116, 95, 97, 108, 108, 111, 119, 101, 100] := by decide
 
 /-- what the peer's messages are: the model's decoders are exactly the protocol parsers (so they also never panic) -/
 theorem C04_decoders_refine_spec (bs : Bytes) :
@@ -306,16 +492,7 @@ theorem C04_codec_round_trip (f ch cr : Nat) (name d : Bytes) (hf : f < 18446744
 example : decodeAck ((Spec.Handshake.ack (dg0 [] 1)).drop 2) = .ok (dg0 [] 1) :=
   (C04_codec_round_trip 0 0 0 [] (dg0 [] 1) (by decide) (by decide) (by decide) (by decide) (by decide) (by decide)).2
 
-/-- `StatusMessage::encode` does NOT produce the protocol layout (finding `kf-c04-status-encode`): it writes the
-enum discriminant as a u16 where the protocol — and this crate's own decoder — has the status text -/
-theorem C04_not_status_encode_layout :
-    encodeStatus .ok ≠ Spec.Handshake.status Spec.Handshake.txtOk ∧
-    decodeStatus ((encodeStatus .ok).drop 2) = .err .malformed := by
-  constructor
-  · decide
-  · rfl
-
-/-! ## no panic; bad input never connects -/
+/-! ## no panic -/
 
 /-- no call, in any state, with any argument, panics -/
 theorem C04_no_panic (cfg : Cfg) (dg : Bytes → Nat → Bytes) (s : State) (op : Op) :
@@ -331,152 +508,90 @@ theorem C04_no_panic_run (cfg : Cfg) (dg : Bytes → Nat → Bytes) (ops : List 
     simp only [outsFrom, List.mem_cons, not_or]
     exact ⟨fun h => step_no_panic cfg dg s op h.symm, ih _⟩
 
-/-- a call that returns an error never takes the machine INTO `connected`; more generally the only call that does
-is an ack carrying `dg cookie (current challenge of ours)`, and it returns success -/
-theorem C04_bad_input_never_connects (cfg : Cfg) (dg : Bytes → Nat → Bytes) (s : State) (op : Op)
-    (hs : s.state ≠ .connected) (hc : (step cfg dg s op).1.state = .connected) :
-    (step cfg dg s op).2 = .unit ∧
-    ∃ a c, op = .handleChallengeAck a ∧ s.our = some c ∧ parseAck a = some (dg cfg.cookie c) := by
-  rcases step_connected cfg dg s op hc with ⟨h, _⟩ | ⟨a, c, e, ho, hp, hu⟩
-  · exact absurd h hs
-  · exact ⟨hu, a, c, e, ho, hp⟩
+/-! ## `Connection::connect` -/
 
-example : (step cfg0 dg0 (run cfg0 dg0 [.handleChallenge chal0 5]) (.handleChallengeAck (ack0 5))).1.state = .connected := by
-  decide
-
-/-- malformed, truncated, wrong-tag, wrong-digest acks, and any ack when no challenge is outstanding: an error and
-nothing changes -/
-theorem C04_bad_ack_rejected (cfg : Cfg) (dg : Bytes → Nat → Bytes) (s : State) (a : Bytes)
-    (hbad : ∀ c, s.our = some c → parseAck a ≠ some (dg cfg.cookie c)) :
-    (step cfg dg s (.handleChallengeAck a)).1 = s ∧ (step cfg dg s (.handleChallengeAck a)).2.isErr = true := by
-  simp only [step, decodeAck_eq]
-  cases hp : parseAck a with
-  | none => simp [Out.isErr]
-  | some d =>
-    cases ho : s.our with
-    | none => simp [Out.isErr]
-    | some o =>
-      have : d ≠ dg cfg.cookie o := by
-        intro e
-        exact hbad o ho (by rw [hp, e])
-      simp [this, Out.isErr]
-
-example : (step cfg0 dg0 (run cfg0 dg0 [.handleChallenge chal0 5]) (.handleChallengeAck (ack0 9))).2 = .err .auth := by
-  decide
-
-/-- a refusal status (nok, not_allowed, alive), an unknown or malformed status: an error and nothing changes;
-ok / ok_simultaneous: success and nothing changes -/
-theorem C04_status (cfg : Cfg) (dg : Bytes → Nat → Bytes) (s : State) (b : Bytes) :
-    (step cfg dg s (.handleStatus b)).1 = s ∧
-    ((step cfg dg s (.handleStatus b)).2 = .unit ↔ ∃ st, parseStatus b = some st ∧ st.accepts = true) ∧
-    ((step cfg dg s (.handleStatus b)).2 ≠ .unit → (step cfg dg s (.handleStatus b)).2.isErr = true) := by
-  simp only [step, decodeStatus_eq]
-  cases hp : parseStatus b with
-  | none => simp [Out.isErr]
-  | some st =>
-    have := convStatus_isOk st
-    cases hacc : st.accepts <;> simp [hacc, this, Out.isErr]
-
-example : (step cfg0 dg0 State.init (.handleStatus [115, 110, 111, 107])).2 = .err .refused := by decide
-
-/-! ## the step order is NOT enforced by the state machine (finding), and what holds for a caller that follows it -/
-
-/-- Finding `kf-c04-connected-out-of-order`: `connected` is reachable without `begin_connect`, without sending a
-name, without any status and without ever emitting the reply — most methods do not look at the current state. -/
-theorem C04_not_connected_only_in_order :
-    ∃ (cfg : Cfg) (dg : Bytes → Nat → Bytes) (ops : List Op), (run cfg dg ops).state = .connected ∧
-      Op.beginConnect ∉ ops ∧ Op.prepareSendName ∉ ops ∧ Op.prepareChallengeReply ∉ ops ∧
-      (∀ b, Op.handleStatus b ∉ ops) :=
-  ⟨cfg0, dg0, [.handleChallenge chal0 5, .handleChallengeAck (ack0 5)], by decide, by decide, by decide, by decide,
-    by intro b; simp⟩
-
-/-- Finding `kf-c04-connected-after-refusal`: the peer's refusal is reported as an error to the caller but is not
-latched (`Failed` is never entered), so the same machine still goes on to `connected`. -/
-theorem C04_not_refusal_is_final :
-    ∃ (cfg : Cfg) (dg : Bytes → Nat → Bytes) (pre post : List Op) (b : Bytes),
-      (step cfg dg (run cfg dg pre) (.handleStatus b)).2 = .err .refused ∧
-      Op.disconnect ∉ post ∧
-      (run cfg dg (pre ++ Op.handleStatus b :: post)).state = .connected :=
-  ⟨cfg0, dg0, [.beginConnect, .prepareSendName], [.prepareComplement, .handleChallenge chal0 5,
-    .prepareChallengeReply, .handleChallengeAck (ack0 5)], [115, 110, 111, 107], by decide, by decide, by decide⟩
-
-/-- What does hold (guard: the caller makes the calls in the order of `Connection::connect` and stops at the first
-error, as connection.rs does with `?`): the machine ends `connected` exactly when every step was right — name
-within 255 bytes, an accepting status, a well-formed challenge, and an ack with `dg cookie (our challenge)` — and
-exactly when no call returned an error. -/
-theorem C04_connect_in_order_partial (cfg : Cfg) (dg : Bytes → Nat → Bytes) (sb cb : Bytes) (c : Nat) (ab : Bytes) :
-    ((runStop cfg dg State.init (connectScript sb cb c ab)).1.state = .connected ↔
+/-- the calls `Connection::connect` makes (connection.rs l.192-232), whatever the peer sends: the machine ends
+`connected` exactly when every step was right — name within 255 bytes, an accepting status, a well-formed challenge,
+and an ack with `dg cookie (the challenge generated in handle_challenge)` -/
+theorem C04_connect_script (cfg : Cfg) (dg : Bytes → Nat → Bytes) (sb cb : Bytes) (c : Nat) (ab : Bytes) :
+    (run cfg dg (connectScript sb cb c ab)).state = .connected ↔
       (cfg.name.length ≤ 255 ∧ (∃ st, parseStatus sb = some st ∧ st.accepts = true) ∧
-        (parseChallenge cb).isSome = true ∧ parseAck ab = some (dg cfg.cookie c))) ∧
-    ((runStop cfg dg State.init (connectScript sb cb c ab)).1.state = .connected ↔
-      (runStop cfg dg State.init (connectScript sb cb c ab)).2 = none) := by
-  have hF := C04_flags cfg dg
-  simp only [connectScript, runStop]
-  -- begin_connect from Disconnected
-  have e1 : step cfg dg State.init .beginConnect = ({ State.init with state := .connecting }, .unit) := by
-    simp [step, State.init]
-  rw [e1]
-  simp only []
-  -- send_name
-  by_cases hn : cfg.name.length ≤ 255
-  · have e2 : ∀ s, step cfg dg s .prepareSendName =
-        ({ s with state := .awaitingStatus }, .bytes (Spec.Handshake.sendNameOld cfg.flags cfg.name)) := by
-      intro s
-      have hn' : ¬ cfg.name.length > 255 := by omega
-      simp [step, encodeSendNameOld, hn', Spec.Handshake.sendNameOld]
-    rw [e2]
-    simp only []
-    -- status
-    cases hp : parseStatus sb with
-    | none =>
-      simp [step, decodeStatus_eq, hp, hn]
-    | some st =>
-      cases hacc : st.accepts with
-      | false =>
-        have := convStatus_isOk st
-        simp [step, decodeStatus_eq, hp, hn, hacc, this]
-      | true =>
-        have hok := convStatus_isOk st
-        have e3 : ∀ s, step cfg dg s (.handleStatus sb) = (s, .unit) := by
-          intro s; simp [step, decodeStatus_eq, hp, hok, hacc]
-        rw [e3]
-        simp only []
-        have e4 : ∀ s, step cfg dg s .prepareComplement =
-            (s, .bytes (be16 9 ++ [99] ++ be32 (cfg.flags / 4294967296) ++ be32 cfg.creation)) := by
-          intro s; rfl
-        rw [e4]
-        simp only []
-        -- challenge
-        have hf := hF ⟨.awaitingStatus, none, none, none⟩ cb c
-        cases hpc : parseChallenge cb with
-        | none =>
-          rw [hpc] at hf
-          simp only [State.init] at hf ⊢
-          rw [hf]
-          simp [hn]
-        | some m =>
-          rw [hpc] at hf
-          simp only [State.init] at hf ⊢
-          rw [hf]
-          simp only []
-          -- reply
-          have e5 : step cfg dg ⟨.awaitingChallenge, some c, some m.challenge, some (m.flags &&& cfg.flags)⟩ .prepareChallengeReply
-              = (⟨.awaitingChallengeAck, some c, some m.challenge, some (m.flags &&& cfg.flags)⟩,
-                 .bytes (encodeReply c (dg cfg.cookie m.challenge))) := by
-            simp [step]
-          rw [e5]
-          simp only []
-          -- ack
-          simp only [step, decodeAck_eq]
-          cases hpa : parseAck ab with
-          | none => simp [hn]
-          | some d =>
-            by_cases hd : d = dg cfg.cookie c
-            · simp [hd, hn, hacc]
-            · simp [hd, hn, hacc]
-  · have hn' : cfg.name.length > 255 := by omega
-    simp [step, encodeSendNameOld, hn', hn]
+        (parseChallenge cb).isSome = true ∧ parseAck ab = some (dg cfg.cookie c)) := by
+  constructor
+  · intro hc
+    have hne : (run cfg dg (connectScript sb cb c ab)).state ≠ .failed := by rw [hc]; simp
+    rw [connected_iff, run, runFrom_refines, abs_init] at hc
+    simp only [connectScript, connRun, List.foldl_cons, List.foldl_nil] at hc
+    by_cases hn : cfg.name.length ≤ 255
+    · cases hs : parseStatus sb with
+      | none => simp [connStep, Conn.empty, sideOf, hn, hs] at hc
+      | some st =>
+        cases ha : st.accepts with
+        | false => simp [connStep, Conn.empty, sideOf, hn, hs, ha] at hc
+        | true =>
+          cases hm : parseChallenge cb with
+          | none => simp [connStep, Conn.empty, sideOf, hn, hs, ha, hm] at hc
+          | some m =>
+            by_cases hd : parseAck ab = some (dg cfg.cookie c)
+            · exact ⟨hn, ⟨st, rfl, ha⟩, by simp, hd⟩
+            · simp [connStep, Conn.empty, sideOf, hn, hs, ha, hm, hd] at hc
+    · simp [connStep, Conn.empty, sideOf, hn] at hc
+  · rintro ⟨hn, hst, hm, hack⟩
+    have hm' : ∃ m, parseChallenge cb = some m := by
+      cases h : parseChallenge cb with
+      | none => simp [h] at hm
+      | some m => exact ⟨m, rfl⟩
+    have := C04_in_order_connects cfg dg [] [] [] [] [Op.prepareComplement] sb cb c [] [] ab [] (.inl rfl)
+      (by simp) (by simp) (by simp) (by simp [Op.isChallenge, Op.isDisconnect]) (by simp) (by simp) (by simp) hn hst hm' hack
+    simpa [connectScript] using this
 
-example : (runStop cfg0 dg0 State.init (connectScript [115, 111, 107] chal0 5 (ack0 5))).1.state = .connected := by decide
+example : (run cfg0 dg0 (connectScript statusOk chal0 5 (ack0 6))).state = .failed := by decide
+
+/-! ## constants regenerated from the source: message tags and capability-flag bits -/
+
+/-- the tags and the version the encoders/decoders use (regenerated from handshake.rs / state_machine.rs) are the
+protocol's: `n` (old send_name, version 5), `N` (new send_name, challenge), `s`, `c`, `r`, `a` -/
+theorem C04_tags_are_protocol :
+    tagNOld.toNat = Spec.Handshake.tagNameOld ∧ tagN.toNat = Spec.Handshake.tagNameNew ∧
+    tagS.toNat = Spec.Handshake.tagStatus ∧ tagC.toNat = Spec.Handshake.tagComplement ∧
+    tagR.toNat = Spec.Handshake.tagReply ∧ tagA.toNat = Spec.Handshake.tagAck ∧
+    version5 = Spec.Handshake.versionOld := by decide
+
+/-- the capability-flag constants whose value is NOT the protocol's (finding `kf-c04-flag-bits`) -/
+def misnumberedFlags : List String := ["FRAGMENTS", "SPAWN", "NAME_ME", "ALIAS"]
+
+/-- THE statement one wants — every capability-flag constant of flags.rs has the bit the protocol assigns to that
+capability — is
+    `∀ nv ∈ Gen.DIST_FLAGS, Spec.Handshake.protocolFlag nv.1 = some nv.2`.
+It does not hold (`C04_not_flag_bits`). What holds: every constant except FRAGMENTS, SPAWN, NAME_ME and ALIAS has the
+protocol's bit — in particular all thirteen that are mandatory for OTP 26 (`C04_mandatory_flags`). -/
+theorem C04_flag_bits_partial :
+    ∀ nv ∈ Gen.DIST_FLAGS, nv.1 ∉ misnumberedFlags → Spec.Handshake.protocolFlag nv.1 = some nv.2 := by decide
+
+/-- finding `kf-c04-flag-bits`: flags.rs gives FRAGMENTS bit 27 (protocol: 23), SPAWN bit 36 (32), NAME_ME bit 37 (33)
+and ALIAS bit 43 (35); V4_NC between them is right (34). `DistributionFlags::DEFAULT` therefore announces bits 27, 36,
+37 and 43 and does not announce the protocol's FRAGMENTS, SPAWN and ALIAS, so the intersection with a real peer's
+flags never contains them. -/
+theorem C04_not_flag_bits :
+    flagConst "FRAGMENTS" = some (2 ^ 27) ∧ Spec.Handshake.protocolFlag "FRAGMENTS" = some (2 ^ 23) ∧
+    flagConst "SPAWN" = some (2 ^ 36) ∧ Spec.Handshake.protocolFlag "SPAWN" = some (2 ^ 32) ∧
+    flagConst "NAME_ME" = some (2 ^ 37) ∧ Spec.Handshake.protocolFlag "NAME_ME" = some (2 ^ 33) ∧
+    flagConst "ALIAS" = some (2 ^ 43) ∧ Spec.Handshake.protocolFlag "ALIAS" = some (2 ^ 35) ∧
+    flagDefault &&& Spec.Handshake.otpAcceptorFlags &&& (2 ^ 23 ||| 2 ^ 32 ||| 2 ^ 35) = 0 := by decide
+
+/-- the flag constants are pairwise distinct single bits of a 64-bit word, under pairwise distinct names -/
+theorem C04_flag_bits_distinct :
+    (Gen.DIST_FLAGS.map (·.2)).Nodup ∧ (Gen.DIST_FLAGS.map (·.1)).Nodup ∧
+    ∀ nv ∈ Gen.DIST_FLAGS, (List.range 64).any (fun k => nv.2 == 2 ^ k) = true := by decide
+
+/-- the flag sets are what their definitions list: `MANDATORY_OTP26` is the union of exactly the thirteen capabilities
+the protocol makes mandatory for OTP 26, each with the protocol's bit; `DEFAULT` is the union of its listed members and
+contains `MANDATORY_OTP26`; `DEFAULT_HIDDEN` is `DEFAULT` without `PUBLISHED` -/
+theorem C04_mandatory_flags :
+    flagMandatory = evalFlagSet 3 "MANDATORY_OTP26" ∧ flagDefault = evalFlagSet 3 "DEFAULT" ∧
+    flagDefaultHidden = evalFlagSet 3 "DEFAULT_HIDDEN" ∧
+    flagMandatory = (Spec.Handshake.mandatoryOtp26.map fun n => (Spec.Handshake.protocolFlag n).getD 0).foldl (· ||| ·) 0 ∧
+    flagDefault &&& flagMandatory = flagMandatory ∧
+    flagDefaultHidden = flagDefault &&& (18446744073709551615 - 1) ∧ flagDefault &&& 1 = 1 := by decide
 
 end Edp.Props.C04
